@@ -122,12 +122,14 @@ fn gen_where(rng: &mut Rng, scope: &Scope, fallible: bool) -> Option<X> {
     let mut g = ExprGen::new(scope.clone());
     if fallible {
         g.fallible = true;
-        return Some(g.gen(rng, Ty::Bool, 2, true));
+        return Some(g.gen_expr(rng, Ty::Bool, 2, true));
     }
     let n = 1 + rng.below(3);
-    let mut e = g.gen(rng, Ty::Bool, 1 + rng.below(2) as u32, true);
+    let d = 1 + rng.below(2) as u32;
+    let mut e = g.gen_expr(rng, Ty::Bool, d, true);
     for _ in 1..n {
-        e = X::Bin(Op::And, Box::new(e), Box::new(g.gen(rng, Ty::Bool, 1 + rng.below(2) as u32, true)));
+        let d = 1 + rng.below(2) as u32;
+        e = X::Bin(Op::And, Box::new(e), Box::new(g.gen_expr(rng, Ty::Bool, d, true)));
     }
     Some(e)
 }
@@ -137,7 +139,7 @@ fn gen_stmt(rng: &mut Rng, t: &TableDef, scope: &Scope) -> Stmt {
     match rng.below(10) {
         0 | 1 | 2 => Stmt::Delete(gen_where(rng, scope, fallible)),
         3 | 4 | 5 | 6 => {
-            let n = 1 + rng.below(3.min(t.cols.len() as u64)) as usize;
+            let n = 1 + rng.below(3u64.min(t.cols.len() as u64)) as usize;
             let mut cols: Vec<usize> = (0..t.cols.len()).collect();
             // random subset, random textual order
             for i in 0..cols.len() {
@@ -152,7 +154,8 @@ fn gen_stmt(rng: &mut Rng, t: &TableDef, scope: &Scope) -> Stmt {
                 .map(|j| {
                     let ty = t.cols[j].1;
                     // mostly expressions over other columns; sometimes the column itself (identity)
-                    let e = if rng.chance(1, 12) { X::Col(j, t.cols[j].0.clone(), ty) } else { g.gen(rng, ty, rng.below(3) as u32, true) };
+                    let d = rng.below(3) as u32;
+                    let e = if rng.chance(1, 12) { X::Col(j, t.cols[j].0.clone(), ty) } else { g.gen_expr(rng, ty, d, true) };
                     (j, e)
                 })
                 .collect();
@@ -191,7 +194,14 @@ fn gen_stmt(rng: &mut Rng, t: &TableDef, scope: &Scope) -> Stmt {
         _ => {
             let mut g = ExprGen::new(scope.clone());
             g.fallible = fallible;
-            let es = t.cols.iter().map(|(_, ty)| g.gen(rng, *ty, rng.below(2) as u32, true)).collect();
+            let es = t
+                .cols
+                .iter()
+                .map(|(_, ty)| {
+                    let d = rng.below(2) as u32;
+                    g.gen_expr(rng, *ty, d, true)
+                })
+                .collect();
             Stmt::InsertSelect(rng.below(2) as usize, es, gen_where(rng, scope, false))
         }
     }
